@@ -53,6 +53,19 @@ CHECKS = {
         'outside': ['determinism of SDK modules (bank, staking, distribution), CometBFT, IAVL', 'goroutine scheduling, node-local configuration', 'staking precompile validator choice, NewEVM block context, per-block bookkeeping (not yet encoded)', 'more than 3 accounts destroyed in one transaction'],
         'assumptions': SDB_ASSUMPTIONS,
     },
+    'C02': {
+        'pkgs': ['./zzverif/hsdb', './x/evm/vm'],
+        'harnesses': [
+            {'fn': H + 'H_C02_2_StateDBRefinement', 'must_reach': ['suicide-after-refund']},
+            {'fn': P + 'x/evm/vm.H_C02_3_AccessListDifferential', 'over': {'max-paths': 200000}},
+            {'fn': P + 'x/evm/vm.H_C02_3b_AccessListDifferential4', 'over': {'max-paths': 600000}, 'thorough_only': True},
+        ],
+        'level_text': 'Differential bounded symbolic execution of the glue evermint wrote around go-ethereum: (a) the real context-based StateDB against a reference model of go-ethereum\'s state-object semantics (AddBalance, SubBalance, Suicide - which zeroes the balance every time -, SetNonce, SetState, SetCode, CreateAccount with balance carry-over) over all sequences of 3 operations on one account with symbolic amounts: every vm.StateDB getter agrees after every step; (b) evermint\'s AccessList2 against go-ethereum\'s own accessList code (kept verbatim in the repository) over all sequences of 3 (thorough: 4) operations incl. copy-then-continue with a stray write to the original, 2 symbolic addresses and slots with aliasing: all return values and membership queries agree.',
+        'level_note': 'Partial claim: the EVM bytecode interpreter (opcode semantics, gas tables, 63/64 rule), the standard precompiles and tracing are outside; the state transition glue (intrinsic gas, refund cap, nonce handling, value check) is decided against independent oracles under C05/C06/C13 rather than against go-ethereum\'s core.StateTransition code. The reference model of (a) is a hand-written transcription of go-ethereum v1.10.26 state_object.go / statedb.go.',
+        'bounds': ['(a) 1 account (none / base, symbolic balance and nonce), 3 operations of 7 kinds, amounts < 2^100', '(b) 2 addresses x 2 slots, 3 operations (thorough 4) of 3 kinds'],
+        'outside': ['all contract bytecode (the quantifier of the property): the interpreter is not executed', 'go-ethereum\'s own TransitionDb as an oracle', 'precompiles 0x01-0x09, tracers'],
+        'assumptions': SDB_ASSUMPTIONS,
+    },
     'C03': {
         'pkgs': ['./zzverif/hsdb'],
         'harnesses': [
@@ -241,6 +254,19 @@ CHECKS = {
         'level_note': 'Known findings C18-F1 (cpc export drops ERC-20 precompiles, their denomination index and allowances) and C18-F2 (vauth export drops ownership proofs) are open: repair needs new genesis fields. Genesis JSON is an inverse-pair model (native replay uses the real ProtoCodec).',
         'bounds': ['evm: 2 contracts x {2 code variants} x 2 slots each {absent | symbolic non-zero byte}, 1 EOA', 'feemarket: base fee and min gas price (18-decimals raw) < 2^250', 'cpc: {bech32} + optional staking + optional ERC-20 + optional allowance, whitelist of 0-2 addresses'],
         'outside': ['app/export.go orchestration and the SDK modules\' own exports (auth accounts are re-created by the harness)', 'self-destructed / deleted contracts in the history (the exported state is a store content, histories are not replayed)'],
+        'assumptions': TX_ASSUMPTIONS,
+    },
+    'C20': {
+        'pkgs': ['./zzverif/hcpc', './zzverif/htx', './x/feemarket/keeper'],
+        'harnesses': [
+            {'fn': C + 'H_C20_2_PrecompileDispatch', 'must_reach': ['short-input']},
+            {'fn': T + 'H_C13_1_Block2', 'over': {'max-decisions': 3000, 'max-paths': 100000}},
+            {'fn': P + 'x/feemarket/keeper.H_C09_3_EndBlock'},
+        ],
+        'level_text': 'The engine treats every panic not observed by the harness as a failure; this check runs the harnesses whose panics would be fatal or user-triggerable: (1) arbitrary call data of 0-6 symbolic bytes (optionally with a known selector) to the ERC-20 and staking precompiles through the fork\'s real Call/StaticCall -> RunPrecompiledContract -> RunCustom -> the repo\'s wrapper, with symbolic gas: never a panic; (2) a block of two Ethereum transactions of 8 outcome classes followed by the real x/evm EndBlock: never a panic, every admitted transaction has a receipt, a failure in one transaction leaves the bookkeeping of the next consistent; (3) the fee market EndBlock for every base fee, minimum gas price, consensus MaxGas >= -1 and gas used.',
+        'level_note': 'Narrow claim. Decoding of arbitrary transaction bytes (protobuf / RLP / ABI by reflection), gRPC query argument decoding and ALL concurrency (event bus, filter system, websockets, indexer service) are outside the engine.',
+        'bounds': ['(1) input length 0..6 symbolic bytes, 2 contracts, symbolic gas, CALL / STATICCALL', '(2) as C13 quick', '(3) as C09'],
+        'outside': ['byte-level decoders', 'concurrent JSON-RPC / pubsub / filters', 'SDK module begin/end blockers'],
         'assumptions': TX_ASSUMPTIONS,
     },
 }
